@@ -622,6 +622,30 @@ func checkTCG(run *vk.Run, e *Exported, r *rand.Rand) {
 				break
 			}
 		}
+		// the same strictness when the event is the payload of a log record: a record whose Event3 body is
+		// malformed (cut inside a field, or followed by non-zero bytes) is refused, not kept as opaque data
+		record := func(payload []byte) []byte {
+			rec := le.AppendUint32(nil, 0) // PCR index
+			rec = le.AppendUint32(rec, 3)  // EV_NO_ACTION
+			rec = le.AppendUint32(rec, 0)  // no digests
+			return append(le.AppendUint32(rec, uint32(len(payload))), payload...)
+		}
+		decodeRec := func(b []byte) error {
+			_, err := safe(func() (int, error) { return 0, (&eventlog.TCGPCREvent2{}).Unmarshal(bytes.NewReader(b)) })
+			return err
+		}
+		if err := decodeRec(record(got)); err != nil {
+			viol("roundtrip:record", "a TCG_PCR_EVENT2 record carrying a well-formed SP800-155 Event3 is refused: %v", err)
+		}
+		for _, cut := range []int{len(got) - 1, len(got) - 3, 16 + 4 + 16 + 1, 16 + 4 + 8} {
+			if cut > 16 && cut < len(got) && decodeRec(record(got[:cut])) == nil {
+				viol("strictness:record", "a TCG_PCR_EVENT2 record whose SP800-155 Event3 payload is cut after %d of %d bytes is accepted", cut, len(got))
+				break
+			}
+		}
+		if decodeRec(record(append(append([]byte{}, got...), 0, 7))) == nil {
+			viol("strictness:record", "a TCG_PCR_EVENT2 record whose SP800-155 Event3 payload is followed by non-zero bytes is accepted")
+		}
 		run.Case(fmt.Sprintf("sp800155:%d", k), true)
 	}
 	// C strings: every payload row of Abi.tla's PartRows (acceptance, value, both round trips), alone
@@ -681,9 +705,38 @@ func checkTCG(run *vk.Run, e *Exported, r *rand.Rand) {
 		return
 	}
 	// tagged digests and GUID hand-off blocks: the size rules of Abi.tla's TaggedRows / GuidHobRows
-	nTagged, nHob := 0, 0
+	nTagged, nHob, nLen := 0, 0, 0
 	for _, row := range e.Parts {
 		switch row.Part {
+		case "cstrlen":
+			nLen++
+			n := row.Payload[0]
+			val := strings.Repeat("m", n)
+			var w bytes.Buffer
+			_, merr := safe(func() (int, error) { return 0, (&eventlog.ByteSizedCStr{Data: val}).Marshal(&w) })
+			switch {
+			case merr == nil && !row.Accept:
+				viol("strictness:cstr-length", "a %d-byte string (with its terminator more than a one-byte size can describe) is encoded: %d bytes written, size byte %d", n, w.Len(), w.Bytes()[0])
+			case merr != nil && row.Accept:
+				viol("roundtrip:cstr-length", "a %d-byte string is refused: %v", n, merr)
+			case merr == nil:
+				back := &eventlog.ByteSizedCStr{}
+				_, derr := safe(func() (int, error) { return 0, back.Unmarshal(bytes.NewReader(w.Bytes())) })
+				if w.Len() != row.Value[0] || int(w.Bytes()[0]) != n+1 || derr != nil || back.Data != val {
+					viol("roundtrip:cstr-length", "a %d-byte string encodes to %d bytes (size byte %d) and decodes back with error %v", n, w.Len(), w.Bytes()[0], derr)
+				}
+			}
+			// as the model string of a whole event: what is encoded must decode to the same event
+			ev := &eventlog.SP800155Event3{PlatformManufacturerStr: eventlog.ByteSizedCStr{Data: "G"}, PlatformModel: eventlog.ByteSizedCStr{Data: val},
+				FirmwareManufacturerStr: eventlog.ByteSizedCStr{Data: "fw"}, RIMLocator: eventlog.Uint32SizedArray{Data: []byte{1, 2, 3}}}
+			if enc, err := ev.MarshalToBytes(); err == nil {
+				if back, derr := decode3(enc[16:]); derr != nil || back.PlatformModel.Data != val {
+					viol("roundtrip:cstr-length", "an event with a %d-byte model string is encoded (%d bytes) but does not decode to itself (%v)", n, len(enc), derr)
+				}
+			} else if row.Accept {
+				viol("roundtrip:cstr-length", "an event with a %d-byte model string is refused: %v", n, err)
+			}
+			run.Case(fmt.Sprintf("cstrlen:%d", n), true)
 		case "tagged":
 			nTagged++
 			alg, n := uint16(row.Payload[0]), row.Payload[1]
@@ -744,6 +797,10 @@ func checkTCG(run *vk.Run, e *Exported, r *rand.Rand) {
 			}
 			run.Case(fmt.Sprintf("guidhob:%d", n), true)
 		}
+	}
+	if nLen < 10 {
+		run.Infra(fmt.Errorf("Abi.tla emitted %d cstrlen rows", nLen))
+		return
 	}
 	if nTagged < 30 || nHob < 10 {
 		run.Infra(fmt.Errorf("Abi.tla emitted %d tagged and %d guidhob rows", nTagged, nHob))
